@@ -296,9 +296,13 @@ let cmd_probes () =
   let ns = List.map (fun a -> n_of_int (int_of_string a)) (List.tl (List.tl (Array.to_list Sys.argv))) in
   List.iter (fun p -> print_endline (hex (string_of_bytes p))) (M.probes ns)
 
+let cmd_sentences () =
+  List.iter (fun p -> print_endline (hex (string_of_bytes p))) (M.sentences ())
+
 let () =
   match Sys.argv.(1) with
   | "probes" -> cmd_probes ()
+  | "sentences" -> cmd_sentences ()
   | "framed" -> cmd_framed ()
   | "client" -> cmd_client ()
   | "parse" -> cmd_parse ()
